@@ -494,11 +494,12 @@ var c18PkgFiles = []string{
 // crossfile: the files of one package are decorated with one Decorator, resolved across files with
 // dst.NewPackage (identifiers of one file then share objects declared in another, Decl pointing
 // into the other file), and restored with Extras.
-//   one:  only the first file is restored; every restored object reachable from it that has a
-//         declaring node on the dst side has one on the ast side (links found while the deferred
-//         Decl links are being resolved included);
-//   all:  all files are restored, one after another, with one Restorer: no panic (recorded finding
-//         extras-cross-file-duplicate-node when a file refers to a declaration of a later file).
+//
+//	one:  only the first file is restored; every restored object reachable from it that has a
+//	      declaring node on the dst side has one on the ast side (links found while the deferred
+//	      Decl links are being resolved included);
+//	all:  all files are restored, one after another, with one Restorer: no panic (recorded finding
+//	      extras-cross-file-duplicate-node when a file refers to a declaration of a later file).
 func c18CrossFile(in c18Input, all bool) (key, what string) {
 	fset := token.NewFileSet()
 	dec := decorator.NewDecorator(fset)
